@@ -6,7 +6,7 @@
 From V Require Import Common.Base JpegLS.JlsParams JpegLS.JlsGolomb JpegLS.JlsRun JpegLS.JlsModel.
 From V Require Import JpegLS.JlsProofsParams JpegLS.JlsProofsGolomb JpegLS.JlsProofsSample
                       JpegLS.JlsProofsRun JpegLS.JlsProofsNear0 JpegLS.JlsProofsInterrupt
-                      JpegLS.JlsProofsLine JpegLS.JlsProofsLine3.
+                      JpegLS.JlsProofsLine JpegLS.JlsProofsLine3 JpegLS.JlsProofsWriter.
 
 (* ---------- triples ---------- *)
 
@@ -69,7 +69,7 @@ Theorem scan_lockstep : forall P near pk w h comps pixels ops,
   Forall (in_range P) pixels -> zlen pixels = w * h * comps ->
   encode_scan_ops pk (jls_params P near) w h comps pixels = Ok ops ->
   exists recon,
-    Forall2 (near_close near) pixels recon /\ Forall (in_range P) recon /\
+    Forall2 (near_close near) pixels recon /\ Forall (in_range P) recon /\ Forall wop_ok ops /\
     forall rest, decode_scan_samples pk (jls_params P near) w h comps (ops_bits ops ++ rest) = Ok recon.
 Proof.
   intros P near pk w h comps pixels ops HP Hn Hpk Hw Hh Hc Hrng Hlen Henc.
@@ -85,9 +85,11 @@ Proof.
     inversion Henc; subst ops.
     destruct (lines1_lockstep P near pk HP Hn Hpk w (Z.to_nat w) Hwn (Z.to_nat h) 0 0 0 _ [] pixels [] ops_rev
                 Hinit ltac:(unfold in_range; lia) ltac:(constructor) Hrng ltac:(nia) E)
-      as (ops & lines & Hops & Hrel & Hr & _ & _ & Hdec).
+      as (ops & lines & Hops & Hrel & Hr & _ & _ & Hwf & Hdec).
+    rewrite app_nil_r in Hops.
     exists (concat lines). split; [assumption|]. split; [assumption|].
-    intros rest. rewrite app_nil_r in Hops. rewrite Hops, frev_rev, rev_involutive. rewrite Hdec. reflexivity.
+    split; [rewrite Hops, frev_rev, rev_involutive; exact Hwf|].
+    intros rest. rewrite Hops, frev_rev, rev_involutive. rewrite Hdec. reflexivity.
   - (* three components, sample interleaved *)
     change (3 >? 1) with true in *. cbv iota in *.
     destruct (enc_lines3 (Z.to_nat h) pk (jls_params P near) w (Z.to_nat w) 0 z3 z3 (jst_init (jls_params P near)) []
@@ -97,9 +99,11 @@ Proof.
     destruct (triples_spec _ _ Hl3) as [Hun Htl].
     destruct (lines3_lockstep P near pk HP Hn Hpk w (Z.to_nat w) Hwn (Z.to_nat h) 0 z3 z3 _ [] (triples pixels) [] ops_rev
                 Hinit Hz3 ltac:(constructor) (triples_range P _ _ Hl3 Hrng) Htl E)
-      as (ops & lines & Hops & Hrel & Hr & _ & _ & Hdec).
+      as (ops & lines & Hops & Hrel & Hr & _ & _ & Hwf & Hdec).
+    rewrite app_nil_r in Hops.
     exists (untriples (concat lines)).
     split; [rewrite <- Hun; apply untriples_close; assumption|].
     split; [apply untriples_range; assumption|].
-    intros rest. rewrite app_nil_r in Hops. rewrite Hops, frev_rev, rev_involutive. rewrite Hdec. reflexivity.
+    split; [rewrite Hops, frev_rev, rev_involutive; exact Hwf|].
+    intros rest. rewrite Hops, frev_rev, rev_involutive. rewrite Hdec. reflexivity.
 Qed.
